@@ -113,7 +113,10 @@ def flat_items(chain):
 
 
 ANNOS = [[], [], [], ['q=1'], ['+1'], ['-0.25'], ['w=0.5'], ['0', '0.5'], ['q=1', 'w=2'], ['w=2', 'q=1'], ['mass=72'],
-         ['q=1e-1'], ['k=v', 'q=.5'], ['1', 'c=x']]
+         ['q=1e-1'], ['k=v', 'q=.5'], ['1', 'c=x'],
+         # free one-letter symbols (everything but the reserved q and w) and free words are kept verbatim
+         ['m=72'], ['m=heavy', 'q=1'], ['n=3', 'p=x'], ['a=1', 'e=2'], ['r=abc'], ['z=0.5', 'w=2'], ['s=S'], ['t=1', 'u=v', 'q=-1'],
+         ['name=x'], ['type=P5', 'm=a1']]
 
 
 def rnd_chain(rng, depth, maxlen, pm=0.0, names='ABC', annos=False, orders=(1, 1, 1, 0, 2, 3, 4), pb=0.35):
@@ -240,7 +243,8 @@ def mutate(rng, s):
 
 def anno_string(rng):
     # (keys are case sensitive: 'Q', 'W', 'Mass', 'resName' are free keys, kept verbatim)
-    keys = ['q', 'w', 'fragname', 'x', 'mass', 'k', 'charge', 'weight', 'kwargs', '', 'Q', 'W', 'Mass', 'resName']
+    keys = ['q', 'w', 'fragname', 'x', 'mass', 'k', 'charge', 'weight', 'kwargs', '', 'Q', 'W', 'Mass', 'resName',
+            'm', 'n', 'p', 'r', 'a', 'e', 's', 't', 'z', 'c']
     nums = ['1', '+1', '-0.25', '1e-1', '.5', '5.', '0', '1e3', '-2', '0.5', '2']
     bad = ['a', 'abc', '1=2', '', '--1', '1e', 'x1', '.']
     entries = []
